@@ -172,8 +172,14 @@ func runProjectionWith(cs *projCase, origin interface{}) (projOut, error) {
 	}
 	var svcs []interface{}
 	for i := 1; i <= cs.C.Nsvc; i++ {
-		svcs = append(svcs, map[string]interface{}{"id": fmt.Sprintf("svc%d", i), "type": "LinkedDomains", "serviceEndpoint": fmt.Sprintf("https://svc.example.com/%d", i),
-			"priority": float64(i), "extra": map[string]interface{}{"a": float64(1)}})
+		sv := map[string]interface{}{"id": fmt.Sprintf("svc%d", i), "type": "LinkedDomains", "serviceEndpoint": fmt.Sprintf("https://svc.example.com/%d", i),
+			"priority": float64(i), "extra": map[string]interface{}{"a": float64(1)}}
+		if i == 2 {
+			// a sparse entry: no type member, one further member - "its remaining members" does not depend on how many
+			// of the standard members an entry has
+			sv = map[string]interface{}{"id": "svc2", "serviceEndpoint": "https://svc.example.com/2", "priority": float64(2)}
+		}
+		svcs = append(svcs, sv)
 	}
 	if len(svcs) > 0 {
 		doc["service"] = svcs
